@@ -73,12 +73,24 @@ def _sh(cmd, timeout, cwd=None, env=None):
 _canary_ok = None
 
 
+def _cleanup_old(root, keep_s=3600):
+    """drop per-process scratch directories older than an hour"""
+    try:
+        now = time.time()
+        for n in os.listdir(root):
+            p = os.path.join(root, n)
+            if n.startswith('p') and os.path.isdir(p) and p != os.path.join(root, 'p%d' % os.getpid()) and now - os.path.getmtime(p) > keep_s:
+                shutil.rmtree(p, ignore_errors=True)
+    except OSError:
+        pass
+
+
 def verus_canary():
     """a deliberately false assertion must FAIL: guards against a dead solver / silent success"""
     global _canary_ok
     if _canary_ok is not None:
         return _canary_ok
-    d = os.path.join(BUILD, 'obligations')
+    d = os.path.join(BUILD, 'obligations', 'p%d' % os.getpid())
     os.makedirs(d, exist_ok=True)
     p = os.path.join(d, 'canary.rs')
     open(p, 'w').write('use vstd::prelude::*;\nverus! {\nproof fn canary(x: int) { assert(x + 1 == x); }\n'
@@ -101,8 +113,10 @@ def run_verus(unit, rlimit=None, extra_args=()):
     r = UnitResult(unit, 'verus')
     t0 = time.time()
     tpl = os.path.join(VERIF, 'contracts', unit + '.rs.tpl')
-    outdir = os.path.join(BUILD, 'obligations')
+    # one directory per process: two checks running at the same time must not share files
+    outdir = os.path.join(BUILD, 'obligations', 'p%d' % os.getpid())
     os.makedirs(outdir, exist_ok=True)
+    _cleanup_old(os.path.join(BUILD, 'obligations'))
     try:
         rend = vx.render(tpl, REPO)
     except vx.Inconclusive as e:
@@ -346,7 +360,7 @@ def run_bx(name, strategy, bounds, tier, max_viol=20):
         r.status, r.reason = INCONCLUSIVE, 'bx does not build against the current tree: %s' % err
         r.wall_s = time.time() - t0
         return r
-    outp = os.path.join(BUILD, 'bx-%s.json' % name)
+    outp = os.path.join(BUILD, 'bx-%s-%d.json' % (name, os.getpid()))
     cmd = [exe, 'strategy', '--name', strategy, '--tier', tier, '--max-data', str(bounds['max_data']),
            '--max-add', str(bounds['max_add']), '--window', str(bounds['window']),
            '--shapes', bounds['shapes'], '--out', outp, '--max-violations', str(max_viol)]
@@ -357,6 +371,10 @@ def run_bx(name, strategy, bounds, tier, max_viol=20):
         r.status, r.reason = INCONCLUSIVE, 'bx rc=%s timeout=%s %s' % (rc, to, err[-1000:])
         return r
     j = json.load(open(outp))
+    try:
+        os.remove(outp)
+    except OSError:
+        pass
     r.extra = j
     r.obligations = j['evaluations']
     r.discharged = j['evaluations'] - j['violations_total']
